@@ -1034,9 +1034,13 @@ func (x *Exec) scopeAt(env *Env, pos token.Pos) *Scope {
 	file := cx.fi.Pkg.Types.Scope().Innermost(pos)
 	hidden := append([]types.Object{}, cx.hidden...)
 	sc.resolve = func(name string) (Term, bool) {
-		if name == "$i" && len(hidden) > 0 {
-			v, ok := env.vars[hidden[len(hidden)-1]]
-			return v, ok
+		if (name == "$i" || name == "$visited") && len(hidden) > 0 {
+			for k := len(hidden) - 1; k >= 0; k-- {
+				if hidden[k].Name() == name {
+					v, ok := env.vars[hidden[k]]
+					return v, ok
+				}
+			}
 		}
 		if file == nil {
 			return Term{}, false
@@ -1373,7 +1377,8 @@ func (x *Exec) execRange(s *ast.RangeStmt, env *Env, label string) *Env {
 				})
 		}
 	case *types.Map:
-		// order-insensitive abstraction: an arbitrary number of iterations over arbitrary present keys
+		// every present key is visited exactly once, in an arbitrary order: ghost set $visited of visited keys;
+		// the loop ends when all present keys have been visited (Go semantics for a map that the body does not modify).
 		if keyObj != nil {
 			mod[keyObj] = true
 			if _, ok := env.vars[keyObj]; !ok {
@@ -1386,28 +1391,50 @@ func (x *Exec) execRange(s *ast.RangeStmt, env *Env, label string) *Env {
 				env.vars[valObj] = x.zero(valObj.Type())
 			}
 		}
-		x.W.Note("range over map modelled as arbitrary iterations over present keys")
-		return x.execLoopCommon(s, s.Body.Lbrace, env, label, mod, nil,
-			func(e *Env) Term { return x.W.Fresh("more", SBool) },
+		dom, _ := x.W.Field(coll, "dom")
+		val, _ := x.W.Field(coll, "val")
+		ks := arrayKeySort(dom.Sort)
+		vis := types.NewVar(s.Pos(), x.cx.fi.Pkg.Types, "$visited", types.NewMap(u.Key(), types.Typ[types.Bool]))
+		visSort := ArraySort(ks, SBool)
+		env.vars[vis] = Term{S: ConstArray(visSort, False).S, Sort: visSort}
+		mod[vis] = true
+		x.cx.hidden = append(x.cx.hidden, vis)
+		defer func() { x.cx.hidden = x.cx.hidden[:len(x.cx.hidden)-1] }()
+		x.W.Note("range over map: every present key visited once in arbitrary order (ghost $visited); the body must not add or delete keys of the ranged map")
+		auto := func(e *Env) Term {
+			x.W.nfresh++
+			q := fmt.Sprintf("k!q%d", x.W.nfresh)
+			qk := T(q, ks)
+			return T(fmt.Sprintf("(forall ((%s %s)) (! (=> %s %s) :pattern (%s)))", q, ks, Select(e.vars[vis], qk).S, Select(dom, qk).S, Select(e.vars[vis], qk).S), SBool)
+		}
+		return x.execLoopCommon(s, s.Body.Lbrace, env, label, mod, auto,
+			func(e *Env) Term {
+				more := x.W.Fresh("more", SBool)
+				x.W.nfresh++
+				q := fmt.Sprintf("k!q%d", x.W.nfresh)
+				qk := T(q, ks)
+				// not more  <=>  every present key has been visited
+				allVisited := T(fmt.Sprintf("(forall ((%s %s)) (! (=> %s %s) :pattern (%s)))", q, ks, Select(dom, qk).S, Select(e.vars[vis], qk).S, Select(dom, qk).S), SBool)
+				x.W.AddFact(e.pc, Eq(Not(more), allVisited))
+				return more
+			},
 			func(e *Env) *Env {
-				dom, _ := x.W.Field(coll, "dom")
-				val, _ := x.W.Field(coll, "val")
+				var k Term
 				if keyObj != nil {
-					k := x.fresh(keyObj.Name(), keyObj.Type())
-					x.assume(e, Select(dom, k))
+					k = x.fresh(keyObj.Name(), keyObj.Type())
+				} else {
+					k = x.W.Fresh("k", ks)
+				}
+				x.assume(e, And(Select(dom, k), Not(Select(e.vars[vis], k))))
+				if keyObj != nil {
 					e.vars[keyObj] = k
-					if valObj != nil {
-						v := Select(val, k)
-						v.GoT = valObj.Type()
-						e.vars[valObj] = v
-					}
-				} else if valObj != nil {
-					k := x.W.Fresh("k", arrayKeySort(dom.Sort))
-					x.assume(e, Select(dom, k))
+				}
+				if valObj != nil {
 					v := Select(val, k)
 					v.GoT = valObj.Type()
 					e.vars[valObj] = v
 				}
+				e.vars[vis] = Term{S: Store(e.vars[vis], k, True).S, Sort: visSort}
 				return x.execBlock(s.Body.List, e)
 			}, nil)
 	}
